@@ -224,7 +224,7 @@ theorem judge_holds_of_model_partial (c : Cfg) (order : List String) (l : Loaded
 /-- two user flows and a quota; `f1.B` branches on `a`/`b`, `f2.G` answers the request -/
 def wCfgOK : Cfg :=
   { ptypes := [wPU, wPG, ⟨"PA", [⟨"a", "any"⟩, ⟨"b", "any"⟩]⟩]
-    quotas := [⟨"q1", "q1", true, false⟩]
+    quotas := [⟨"q1", "q1", true, false, []⟩]
     flows := [
       ⟨.user, ⟨"f1", [("A", "PU"), ("B", "PA"), ("C", "PU"), ("D", "PU")],
         [⟨wS, .proc "A" ""⟩, ⟨.proc "A" "", .proc "B" ""⟩, ⟨.proc "B" "a", .proc "C" ""⟩,
@@ -294,7 +294,7 @@ theorem system_flow_chain (qs : List Quota) : sysDecls sysConns qs = sysDecls ch
 /-- non-vacuity (regression of F04e): two quotas with the same filter — both Inc processors are nodes
     of the merged system start flow, in order. -/
 example :
-    (okVal (load { quotas := [⟨"q1", "q1", true, false⟩, ⟨"q2", "q2", false, false⟩] } [])).map
+    (okVal (load { quotas := [⟨"q1", "q1", true, false, []⟩, ⟨"q2", "q2", false, false, []⟩] } [])).map
       (fun l => l.selected.start.map (fun f => (f.req.root, f.req.nodes.map (·.key)))) =
     some [(some "q1_QuotaProcessorInc", ["q1_QuotaProcessorInc", "q2_QuotaProcessorInc"])] := by decide
 
